@@ -275,3 +275,257 @@ Proof.
   - cbn [isB]. apply Z.ltb_lt. auto.
   - cbn [isA]. destruct (Z.eqb_spec dl (o_exp oA)); [lia|]. apply andb_false_r.
 Qed.
+
+(* ------------------------------------------------------------------ no cancel of A's id: A cannot die before it runs *)
+Definition cb_cancels (a s : Z) (c : cbop) : bool :=
+  match c with CCancel a' s' | CFCancel a' s' => (a' =? a) && (s' =? s) | _ => false end.
+Definition op_cancels (a s : Z) (o : op) : bool :=
+  match o with Cb c => cb_cancels a s c | Fire script => existsb (existsb (cb_cancels a s)) script | RunPending => false end.
+Definition pf_cancels (a s : Z) (f : pfun) : bool :=
+  match f with PCancel a' s' => (a' =? a) && (s' =? s) | PAdd _ => false end.
+
+Lemma cb_step_nc : forall st c st' ev b o, Inv st -> reg st b o -> cb_cancels b (o_seq o) c = false ->
+  existsb (pf_cancels b (o_seq o)) (pending st) = false -> cb_step st c = Ok (st', ev) ->
+  reg st' b o /\ existsb (pf_cancels b (o_seq o)) (pending st') = false.
+Proof.
+  intros st c st' ev b o I [G Hi] NC NP H.
+  destruct (cb_step_obj _ _ _ _ _ _ I G H) as [[G' T']|[HA Gn]].
+  - split; [split; auto|]. destruct c as [d|w iv a|a s|w iv a|a s]; cbn [cb_step] in H.
+    + destruct (d <? 0); inversion H; subst. exact NP.
+    + destruct (alloc st w iv a) as [[st1 s]| |] eqn:EA; cbn [bind] in H; try discriminate.
+      destruct (add_in_loop st1 a) as [[st2 e]| |] eqn:EL; cbn [bind] in H; try discriminate.
+      inversion H; subst. destruct (alloc_shape _ _ _ _ _ _ EA) as (_ & _ & _ & _ & _ & _ & _ & _ & Ep & _).
+      destruct (add_in_loop_shape _ _ _ _ EL) as (_ & _ & _ & _ & _ & _ & Ep2 & _). rewrite Ep2, Ep. exact NP.
+    + destruct (cancel_in_loop st a s) as [st1| |] eqn:EC; cbn [bind] in H; try discriminate. inversion H; subst.
+      destruct (cancel_shape _ _ _ _ EC) as (_ & _ & Ep & _). rewrite Ep. exact NP.
+    + destruct (alloc st w iv a) as [[st1 s]| |] eqn:EA; cbn [bind] in H; try discriminate. inversion H; subst.
+      destruct (alloc_shape _ _ _ _ _ _ EA) as (_ & _ & _ & _ & _ & _ & _ & _ & Ep & _).
+      cbn [pending set_pending]. rewrite Ep, existsb_app, NP. reflexivity.
+    + inversion H; subst. cbn [pending set_pending]. rewrite existsb_app, NP. cbn [existsb pf_cancels cb_cancels] in *.
+      rewrite NC. reflexivity.
+  - (* the object died: only a cancel of exactly its id does that *)
+    exfalso. destruct c as [d|w iv a|a s|w iv a|a s]; cbn [cb_step] in H.
+    + destruct (d <? 0); inversion H; subst. destruct Gn as [_ Gn]. eapply Gn; eauto.
+    + destruct (alloc st w iv a) as [[st1 s]| |] eqn:EA; cbn [bind] in H; try discriminate.
+      destruct (add_in_loop st1 a) as [[st2 e]| |] eqn:EL; cbn [bind] in H; try discriminate.
+      inversion H; subst. destruct (alloc_shape _ _ _ _ _ _ EA) as (_ & _ & Eh & G0 & _).
+      destruct (add_in_loop_shape _ _ _ _ EL) as (Eh2 & _). destruct Gn as [_ Gn]. eapply (Gn b o); auto.
+      rewrite Eh2, Eh. rewrite hget_cons_other; auto. intros ->. congruence.
+    + destruct (cancel_in_loop st a s) as [st1| |] eqn:EC; cbn [bind] in H; try discriminate. inversion H; subst.
+      unfold cancel_in_loop in EC. rewrite (sizes_agree_inv _ I) in EC. cbn [assert bind] in EC.
+      destruct (kmem (a, s) (active st)) eqn:KM.
+      * apply kmem_iff in KM. destruct (i_at _ _ _ _ I _ _ KM) as (oa & Ga & Es & _).
+        destruct (Z.eq_dec a b) as [->|N].
+        -- rewrite G in Ga. inversion Ga; subst oa. cbn [cb_cancels] in NC. rewrite Es, !Z.eqb_refl in NC. discriminate.
+        -- unfold deref in EC. rewrite Ga in EC. cbn [bind] in EC.
+           destruct (kerase _ (timers st)); try discriminate. destruct (kerase _ (active st)); try discriminate.
+           inversion EC; subst. destruct Gn as [_ Gn]. eapply (Gn b o); auto. cbn. rewrite hget_hdel_other; auto.
+      * destruct (calling st); inversion EC; subst; destruct Gn as [_ Gn]; eapply (Gn b o); eauto.
+    + destruct (alloc st w iv a) as [[st1 s]| |] eqn:EA; cbn [bind] in H; try discriminate. inversion H; subst.
+      destruct (alloc_shape _ _ _ _ _ _ EA) as (_ & _ & Eh & G0 & _). destruct Gn as [_ Gn]. eapply (Gn b o); auto.
+      cbn. rewrite Eh. rewrite hget_cons_other; auto. intros ->. congruence.
+    + inversion H; subst. destruct Gn as [_ Gn]. eapply Gn; eauto.
+Qed.
+
+Lemma cb_run_nc : forall cs st X st' ev b o, Inv st -> DInv st (X ++ padds (pending st)) -> reg st b o ->
+  existsb (cb_cancels b (o_seq o)) cs = false -> existsb (pf_cancels b (o_seq o)) (pending st) = false ->
+  cb_run st cs = Ok (st', ev) -> reg st' b o /\ existsb (pf_cancels b (o_seq o)) (pending st') = false.
+Proof.
+  induction cs as [|c r IH]; intros st X st' ev b o I D R NC NP H; cbn [cb_run] in H.
+  - inversion H; subst; auto.
+  - cbn [existsb] in NC. apply orb_false_iff in NC as [NC1 NC2].
+    pose proof (cb_step_good st c X I D) as G1.
+    destruct (cb_step st c) as [[st1 e1]| |] eqn:E1; try discriminate.
+    + destruct (cb_run st1 r) as [[st2 e2]| |] eqn:E2; cbn [bind] in H; try discriminate.
+      inversion H; subst. destruct G1 as (I1 & D1 & _). cbn [fst] in *.
+      destruct (cb_step_nc _ _ _ _ _ _ I R NC1 NP E1) as [R1 NP1]. eapply IH; eauto.
+    + destruct (cb_run st r) as [[st2 e2]| |] eqn:E2; cbn [bind] in H; try discriminate.
+      inversion H; subst. eapply IH; eauto.
+Qed.
+
+Lemma script_nc_split : forall (f : cbop -> bool) script, existsb (existsb f) script = false ->
+  existsb f (hd [] script) = false /\ existsb (existsb f) (tl script) = false.
+Proof. intros f [|g r] H; cbn in *; auto. apply orb_false_iff in H. exact H. Qed.
+
+Lemma run_cbs_nc : forall ex st script now X st' ev b o, Inv st -> DInv st (X ++ padds (pending st)) ->
+  incl (map snd ex) X -> reg st b o -> existsb (existsb (cb_cancels b (o_seq o))) script = false ->
+  existsb (pf_cancels b (o_seq o)) (pending st) = false -> run_cbs st ex script now = Ok (st', ev) ->
+  reg st' b o /\ existsb (pf_cancels b (o_seq o)) (pending st') = false.
+Proof.
+  induction ex as [|[d a] ex IH]; intros st script now X st' ev b o I D Sub R NC NP H; cbn [run_cbs] in H.
+  - inversion H; subst; auto.
+  - destruct (deref st a) as [oa| |]; cbn [bind] in H; try discriminate.
+    destruct (cb_run st (hd [] script)) as [[st1 e1]| |] eqn:E1; cbn [bind] in H; try discriminate.
+    destruct (run_cbs st1 ex (tl script) now) as [[st2 e2]| |] eqn:E2; cbn [bind] in H; try discriminate.
+    inversion H; subst st2 ev; clear H. destruct (script_nc_split _ _ NC) as [NC1 NC2].
+    pose proof (cb_run_good (hd [] script) st X I D) as G1. rewrite E1 in G1. destruct G1 as (I1 & D1 & _ & _). cbn [fst] in *.
+    destruct (cb_run_nc _ _ _ _ _ _ _ I D R NC1 NP E1) as [R1 NP1].
+    eapply (IH st1 (tl script) now X st' e2 b o I1 D1); eauto. intros x Hx. apply Sub. right; auto.
+Qed.
+
+Lemma run_functors_nc : forall fs st st' ev b o, Inv st -> DInv st (padds fs) -> reg st b o ->
+  existsb (pf_cancels b (o_seq o)) fs = false -> run_functors st fs = Ok (st', ev) ->
+  reg st' b o /\ pending st' = pending st.
+Proof.
+  induction fs as [|[a|a s] r IH]; intros st st' ev b o I D [G Hi] NP H; cbn [run_functors] in H.
+  - inversion H; subst. split; [split|]; auto.
+  - cbn [padds] in D. destruct D as [N Dt]. inversion N as [|x l NIa N']; subst.
+    destruct (Dt a (or_introl eq_refl)) as [[oa [Ga Poa]] NDa].
+    assert (D' : DInv st (padds r)) by (split; auto; intros c Hc; apply Dt; right; auto).
+    pose proof (add_in_loop_good st a oa _ I Ga NDa Poa D' NIa) as GA.
+    destruct (add_in_loop st a) as [[st1 e1]| |] eqn:E1; cbn [bind good] in *; try discriminate.
+    destruct (run_functors st1 r) as [[st2 e2]| |] eqn:E2; cbn [bind] in H; try discriminate.
+    inversion H; subst. destruct GA as (I1 & D1 & _ & (_ & Fp & _) & Eh & _). cbn [fst] in *.
+    cbn [existsb pf_cancels orb] in NP.
+    assert (R1 : reg st1 b o) by (split; [rewrite Eh; auto | eapply add_in_loop_timers; eauto]).
+    destruct (IH st1 st' e2 b o I1 D1 R1 NP E2) as [R' P']. split; auto. congruence.
+  - cbn [padds] in D. cbn [existsb] in NP. apply orb_false_iff in NP as [NP1 NP2].
+    pose proof (cancel_good st a s _ I D) as GC.
+    destruct (cancel_in_loop st a s) as [st1| |] eqn:E1; cbn [bind good] in *; try discriminate.
+    destruct GC as (I1 & D1 & _ & (_ & Fp & _)).
+    assert (E1' : cb_step st (CCancel a s) = Ok (st1, [])) by (cbn [cb_step]; rewrite E1; reflexivity).
+    assert (NE : existsb (pf_cancels b (o_seq o)) (pending st) = false \/ True) by auto.
+    destruct (cb_step_obj _ _ _ _ _ _ I G E1') as [[G' T']|[HA Gn]].
+    + assert (R1 : reg st1 b o) by (split; auto).
+      destruct (IH st1 st' ev b o I1 D1 R1 NP2 H) as [R' P']. split; auto. congruence.
+    + exfalso. (* the object died: the functor was a cancel of exactly its id *)
+      unfold cancel_in_loop in E1. rewrite (sizes_agree_inv _ I) in E1. cbn [assert bind] in E1.
+      destruct (kmem (a, s) (active st)) eqn:KM.
+      * apply kmem_iff in KM. destruct (i_at _ _ _ _ I _ _ KM) as (oa & Ga & Es & _).
+        destruct (Z.eq_dec a b) as [->|N].
+        -- rewrite G in Ga. inversion Ga; subst oa. cbn [pf_cancels] in NP1. rewrite Es, !Z.eqb_refl in NP1. discriminate.
+        -- unfold deref in E1. rewrite Ga in E1. cbn [bind] in E1.
+           destruct (kerase _ (timers st)); try discriminate. destruct (kerase _ (active st)); try discriminate.
+           inversion E1; subst. destruct Gn as [_ Gn]. eapply (Gn b o); auto. cbn. rewrite hget_hdel_other; auto.
+      * destruct (calling st); inversion E1; subst; destruct Gn as [_ Gn]; eapply (Gn b o); eauto.
+Qed.
+
+Lemma fire_nc : forall st script st' ev a o, Top st -> reg st a o -> clk st < o_exp o ->
+  existsb (existsb (cb_cancels a (o_seq o))) script = false ->
+  existsb (pf_cancels a (o_seq o)) (pending st) = false -> fire st script = Ok (st', ev) ->
+  reg st' a o /\ existsb (pf_cancels a (o_seq o)) (pending st') = false.
+Proof.
+  intros st script st' ev a o T [G Hi] Lt NC NP H. pose proof T as (I & _).
+  destruct (fire_decomp _ _ _ _ T H) as (ex & rest & act & st4 & evs & st6 & KS & Eapp & Lex & I3 & D3 & ER & I4 & D4 & C4 & EL & I6 & Eh & Et & _ & _ & Ep & _).
+  destruct (consume_same st) as (Eh0 & _ & _ & _ & Ep0 & _).
+  assert (Hrest : In (o_exp o, a) rest).
+  { rewrite Eapp in Hi. apply in_app_iff in Hi as [Hi|Hi]; auto. apply Lex in Hi. lia. }
+  set (st3 := set_canceling (set_calling (set_sets (consume st) rest act) true) []) in *.
+  assert (R3 : reg st3 a o) by (split; [cbn; rewrite Eh0; auto | cbn; auto]).
+  assert (NP3 : existsb (pf_cancels a (o_seq o)) (pending st3) = false) by (unfold st3; cbn; rewrite Ep0; exact NP).
+  destruct (run_cbs_nc _ _ _ _ _ _ _ _ _ I3 D3 (incl_refl _) R3 NC NP3 ER) as [R4 NP4].
+  assert (Pn : ex <> [] -> 0 < clk st).
+  { destruct ex as [|[d1 a1] ex']; [congruence|]. intros _.
+    assert (0 < d1) by (eapply (i_pos _ _ _ _ I); rewrite Eapp; left; eauto).
+    pose proof (Lex d1 a1 (or_introl eq_refl)). lia. }
+  assert (R5 : reg (set_calling st4 false) a o) by exact R4.
+  pose proof (reset_loop_reg ex (set_calling st4 false) (clk st) (padds (pending st4)) st6 a o I4 D4 Pn R5 EL) as [G6 T6].
+  pose proof (reset_loop_good ex (set_calling st4 false) (clk st) (padds (pending st4)) I4 D4 Pn) as GL.
+  rewrite EL in GL. cbn [good] in GL. destruct GL as (_ & _ & (_ & F2 & _)). cbn in F2.
+  split; [split; [rewrite Eh; auto | rewrite Et; auto]|]. rewrite Ep, F2. exact NP4.
+Qed.
+
+Lemma step_nc : forall st o st' ev a ob, Top st -> reg st a ob ->
+  (forall script, o = Fire script -> clk st < o_exp ob) -> op_cancels a (o_seq ob) o = false ->
+  existsb (pf_cancels a (o_seq ob)) (pending st) = false -> step st o = Ok (st', ev) ->
+  reg st' a ob /\ existsb (pf_cancels a (o_seq ob)) (pending st') = false.
+Proof.
+  intros st o st' ev a ob T R Lt NC NP H. pose proof T as (I & D & _). destruct o as [c|script|]; cbn [step op_cancels] in *.
+  - eapply cb_step_nc; eauto.
+  - eapply fire_nc; eauto.
+  - destruct (run_functors_nc (pending st) (set_pending st []) st' ev a ob I D R NP H) as [R' P']. split; auto.
+    rewrite P'. reflexivity.
+Qed.
+
+(* the continuation invariant when no cancel of A's id is issued *)
+Definition Kord2 (a : Z) (oA : tobj) (st : state) (log : list event) : Prop :=
+  ordb (o_seq oA) (o_exp oA) log /\
+  (existsb (isA (o_seq oA) (o_exp oA)) log = true \/
+   (norun (o_seq oA) log /\ reg st a oA /\ existsb (pf_cancels a (o_seq oA)) (pending st) = false)).
+
+Lemma order_step2 : forall a oA st o log hl st' ev, Top st -> HI noR st hl -> Kord2 a oA st log ->
+  op_cancels a (o_seq oA) o = false -> step st o = Ok (st', ev) -> Kord2 a oA st' (log ++ ev).
+Proof.
+  intros a oA st o log hl st' ev T HH [Ob K] NC H.
+  assert (K1 : Kord a oA st log).
+  { right. split; auto. destruct K as [Ex|(NR & R & _)]; auto. }
+  pose proof (order_step a oA st o log hl st' ev T HH K1 H) as K1'.
+  destruct K as [Ex|(NR & R & NP)].
+  - split; [apply ordb_app; auto|]. left. rewrite existsb_app, Ex. reflexivity.
+  - destruct (Z.lt_ge_cases (clk st) (o_exp oA)) as [Lt|Ge].
+    + destruct (step_nc st o st' ev a oA T R (fun _ _ => Lt) NC NP H) as [R' NP'].
+      destruct (step_reg _ _ _ _ _ _ _ T HH R (fun _ _ => Lt) H) as (_ & NR' & _).
+      destruct K1' as [[_ Gn]|[Ob' _]].
+      * exfalso. destruct R' as [G' _]. destruct Gn as [_ Gn]. eapply Gn; eauto.
+      * split; auto. right. split; [apply norun_app; auto|]. auto.
+    + destruct o as [c|script|].
+      * assert (NF : forall script, Cb c = Fire script -> clk st < o_exp oA) by (intros; discriminate).
+        destruct (step_nc st (Cb c) st' ev a oA T R NF NC NP H) as [R' NP'].
+        destruct (step_reg _ _ _ _ _ _ _ T HH R NF H) as (_ & NR' & _).
+        destruct K1' as [[_ Gn]|[Ob' _]].
+        -- exfalso. destruct R' as [G' _]. destruct Gn as [_ Gn]. eapply Gn; eauto.
+        -- split; auto. right. split; [apply norun_app; auto|]. auto.
+      * (* the expiry takes A: it has run *)
+        destruct K1' as [[NRa _]|[Ob' [Ex'|[NRa _]]]].
+        -- exfalso. pose proof T as (I & _). destruct R as [G Hi].
+           pose proof (fire_hist st script hl T HH) as GH. cbn [step] in H. rewrite H in GH. cbn [good fst snd] in GH.
+           destruct GH as (_ & RL & _).
+           assert (Hr : In (o_seq oA, o_exp oA, clk st) (rlog ev)).
+           { rewrite RL. apply in_map_iff. exists (o_exp oA, a). cbn [fst snd]. unfold seqof. rewrite G. split; auto.
+             apply due_iff; [exact I|]. split; [exact Hi|lia]. }
+           apply rlog_in in Hr as [t Ht]. eapply NRa. apply in_or_app. right. exact Ht.
+        -- split; auto.
+        -- exfalso. pose proof T as (I & _). destruct R as [G Hi].
+           pose proof (fire_hist st script hl T HH) as GH. cbn [step] in H. rewrite H in GH. cbn [good fst snd] in GH.
+           destruct GH as (_ & RL & _).
+           assert (Hr : In (o_seq oA, o_exp oA, clk st) (rlog ev)).
+           { rewrite RL. apply in_map_iff. exists (o_exp oA, a). cbn [fst snd]. unfold seqof. rewrite G. split; auto.
+             apply due_iff; [exact I|]. split; [exact Hi|lia]. }
+           apply rlog_in in Hr as [t Ht]. eapply NRa. apply in_or_app. right. exact Ht.
+      * assert (NF : forall script, RunPending = Fire script -> clk st < o_exp oA) by (intros; discriminate).
+        destruct (step_nc st RunPending st' ev a oA T R NF NC NP H) as [R' NP'].
+        destruct (step_reg _ _ _ _ _ _ _ T HH R NF H) as (_ & NR' & _).
+        destruct K1' as [[_ Gn]|[Ob' _]].
+        -- exfalso. destruct R' as [G' _]. destruct Gn as [_ Gn]. eapply Gn; eauto.
+        -- split; auto. right. split; [apply norun_app; auto|]. auto.
+Qed.
+
+Lemma order_run2 : forall a oA ops st log hl st' ev, Top st -> HI noR st hl -> Kord2 a oA st log ->
+  forallb (fun o => negb (op_cancels a (o_seq oA) o)) ops = true ->
+  run st ops = Ok (st', ev) -> Kord2 a oA st' (log ++ ev).
+Proof.
+  intros a oA. induction ops as [|o r IH]; intros st log hl st' ev T HH K NC H; cbn [run] in H.
+  - inversion H; subst. rewrite app_nil_r. auto.
+  - cbn [forallb] in NC. apply andb_true_iff in NC as [NC1 NC2]. apply negb_true_iff in NC1.
+    pose proof (step_good st o T) as G.
+    destruct (step st o) as [[st1 e1]| |] eqn:E1; cbn [bind good] in *; try discriminate.
+    destruct (run st1 r) as [[st2 e2]| |] eqn:E2; cbn [bind] in H; try discriminate.
+    inversion H; subst. rewrite app_assoc. cbn [fst] in G.
+    apply (IH st1 (log ++ e1) (hl ++ e1) st' e2 G); [exact (step_hist st o hl st1 e1 T HH E1) | | exact NC2 | exact E2].
+    exact (order_step2 a oA st o log hl st1 e1 T HH K NC1 E1).
+Qed.
+
+(* Deadline order, unconditional form.  A is registered under dA at a reachable state and no cancel of
+   A's id is queued; the continuation issues no cancel (loop-thread or foreign, top-level or from a
+   callback) of A's id.  Then every callback filed under a later deadline is preceded by A's
+   callback filed under dA, and at the end A has run or is still registered. *)
+Lemma deadline_order_nocancel : forall c ops st evs a oA ops2 st2 evs2,
+  run (init c) ops = Ok (st, evs) -> hget a (heap st) = Some oA -> In (o_exp oA, a) (timers st) ->
+  existsb (pf_cancels a (o_seq oA)) (pending st) = false ->
+  forallb (fun o => negb (op_cancels a (o_seq oA) o)) ops2 = true ->
+  run st ops2 = Ok (st2, evs2) ->
+  (forall l1 s dl n t l2, evs2 = l1 ++ ERun s dl n t :: l2 -> o_exp oA < dl ->
+      exists nA tA, In (ERun (o_seq oA) (o_exp oA) nA tA) l1) /\
+  ((exists nA tA, In (ERun (o_seq oA) (o_exp oA) nA tA) evs2) \/
+   (hget a (heap st2) = Some oA /\ In (o_exp oA, a) (timers st2))).
+Proof.
+  intros c ops st evs a oA ops2 st2 evs2 H G Hi NP NC H2.
+  assert (K0 : Kord2 a oA st []).
+  { split; [exact I|]. right. split; [apply norun_nil|]. split; [split; auto|auto]. }
+  pose proof (order_run2 a oA ops2 st [] evs st2 evs2 (reach_top _ _ _ _ H) (reach_hist _ _ _ _ H) K0 NC H2) as [Ob K].
+  cbn [app] in *. split.
+  - intros l1 s dl n t l2 E Lt. rewrite E in Ob. eapply existsb_isA. eapply ordb_split; [exact Ob| |].
+    + cbn [isB]. apply Z.ltb_lt. auto.
+    + cbn [isA]. destruct (Z.eqb_spec dl (o_exp oA)); [lia|]. apply andb_false_r.
+  - destruct K as [Ex|(_ & R & _)]; [left; apply existsb_isA; auto | right; exact R].
+Qed.
